@@ -210,7 +210,9 @@ Definition scan_file (w : nat) (rec : bool) (bt : nat) (path : string) (ls : lis
 (* open(path) + iteration over the cleaned lines *)
 Definition opener := string -> option (list string).
 
-(* the drain loop; one unit of fuel per file opened *)
+(* the drain loop as it was before /repo commit 2963569 (no cycle test); one unit of fuel per file opened.  The
+   theorems about the order of the stream are proved about this loop and carried over to the present one
+   ([drain_g], below) by ReadQProofs.drain_g_transparent: unless it reports a cycle, drain_g is this loop. *)
 Fixpoint drain (fuel : nat) (ft : opener) (dir : string) (w : nat) (q : list qitem)
   : list yielded * option ra_err :=
   match q with
@@ -233,7 +235,7 @@ Fixpoint drain (fuel : nat) (ft : opener) (dir : string) (w : nat) (q : list qit
       end
   end.
 
-(* ------------------------------------------------------------------ proposed repair C20-1 of the drain loop:
+(* ------------------------------------------------------------------ the drain loop of the code (commit 2963569):
    for every file read so far the set of files that led to it (os.path.realpath keys); a read card whose target is
    among the files that led to its own file raises MalformedInputError before the target is opened.
    realpath is modelled as normpath(abspath) : the model's file systems have no symbolic links. *)
@@ -309,12 +311,8 @@ Definition read_all_ft (w : nat) (ft : opener) (top : string) (fuel : nat) : ra_
       end
   end.
 
-Definition read_all (w : nat) (fs : fsys) (cwd top : string) (fuel : nat) : ra_result :=
-  read_all_ft w (fs_text fs cwd) top fuel.
-
-(* the same with repair C20-1 *)
-Definition read_all_g (w : nat) (fs : fsys) (cwd top : string) (fuel : nat) : ra_result :=
-  let ft := fs_text fs cwd in
+(* read_input_syntax with the present drain loop, for any opener *)
+Definition read_all_gft (w : nat) (ft : opener) (cwd top : string) (fuel : nat) : ra_result :=
   match ft top with
   | None => mkRA None None [] (Some E_FileNotFound)
   | Some ls =>
@@ -326,6 +324,14 @@ Definition read_all_g (w : nat) (fs : fsys) (cwd top : string) (fuel : nat) : ra
           mkRA (f_message fm) (f_title fm) (List.app ys ys') e'
       end
   end.
+
+(* THE model of montepy's reading of a top-level file and everything it reads *)
+Definition read_all (w : nat) (fs : fsys) (cwd top : string) (fuel : nat) : ra_result :=
+  read_all_gft w (fs_text fs cwd) cwd top fuel.
+
+(* the same with the loop as it was before commit 2963569 *)
+Definition read_all_u (w : nat) (fs : fsys) (cwd top : string) (fuel : nat) : ra_result :=
+  read_all_ft w (fs_text fs cwd) top fuel.
 
 Definition inputs_of (ys : list yielded) : list (string * input) :=
   flat_map (fun y => match y with YInput p i => [(p, i)] | YNone => [] end) ys.
@@ -569,7 +575,7 @@ Definition flatten (w : nat) (t : stree) (top : string) (tsf : sfile) (n : nat) 
 
 (* ------------------------------------------------------------------ wire
    readall <w> <fuel> <cwdhex> <tophex> <pathhex>=<byteshex>,...   ("-" = no file, "-" = empty bytes)
-   readallg ...   the same with proposed repair C20-1 (cycle guard)      realpath <cwdhex> <phex>
+   readallu ...   the same with the drain loop as it was before commit 2963569      realpath <cwdhex> <phex>
    isread <hexline,hexline..>      name <hexline,...>      dirname <hex>     join <hex> <hex>
    cardok <w> <hexline,...>  (answers card_ok / lcard_ok)
    flatten <w> <n> <tophex> <file> <pathhex>=<file>;...     file = block/block/... , block = card+card.. ("-" empty),
@@ -630,9 +636,9 @@ Definition run_ReadQ (req : string) : string :=
       | Some W, Some F => show_ra (read_all W (parse_fs fs) (hex_decode cwd) (hex_decode top) F)
       | _, _ => "parse:err"
       end
-  | ["readallg"; w; fuel; cwd; top; fs] =>
+  | ["readallu"; w; fuel; cwd; top; fs] =>
       match parse_nat w, parse_nat fuel with
-      | Some W, Some F => show_ra (read_all_g W (parse_fs fs) (hex_decode cwd) (hex_decode top) F)
+      | Some W, Some F => show_ra (read_all_u W (parse_fs fs) (hex_decode cwd) (hex_decode top) F)
       | _, _ => "parse:err"
       end
   | ["realpath"; cwd; p] => "r" ++ hex_encode (realpath (hex_decode cwd) (hex_decode p))
